@@ -93,3 +93,11 @@ pub open spec fn bf_union_is(v: Seq<BitField>, s: Set<u64>) -> bool {
     forall|b: u64| s.contains(b) <==> exists|i: int| 0 <= i < v.len() && (#[trigger] v[i])@.contains(b)
 }
 } // verus!
+verus! {
+/// `v.iter().copied()` handed to BitField::try_from_bits (collected there): the same numbers. The body IS the original expression, collected.
+#[verifier::external_body]
+pub fn vx_copied(v: &Vec<u64>) -> (r: Vec<u64>) ensures r@ == v@ { v.iter().copied().collect() }
+/// `acc.extend(&v)` (Extend<&u64> for Vec<u64>): appends the elements of v. The body IS the original statement.
+#[verifier::external_body]
+pub fn vx_extend_u64(acc: &mut Vec<u64>, v: &Vec<u64>) ensures final(acc)@ == old(acc)@ + v@ { acc.extend(v) }
+} // verus!
